@@ -21,16 +21,20 @@ pub struct Prop {
     /// MANIFEST: deciding method
     pub technique: &'static str,
     pub design_ref: &'static str,
+    /// supplementary sanitizer stages (thorough tier)
+    pub stages: fn() -> Vec<crate::stages::StageSpec>,
 }
 
 fn noop(_: &mut Ctx) {}
 fn noguard(_: &Merged, _: Tier) -> Vec<String> { vec![] }
+fn nostages() -> Vec<crate::stages::StageSpec> { vec![] }
+pub fn st(name: &'static str, phases: &'static str, case_cap: u64, shards: u64, timeout_s: u64) -> crate::stages::StageSpec { crate::stages::StageSpec { name, phases, case_cap, shards, timeout_s } }
 impl Prop {
     pub fn base(id: &'static str, title: &'static str) -> Prop {
         Prop {
             id, title, level: "exploration", rule: "", assumptions: &[], exhaustive: never, shards: std_shards,
             run: noop, guard: noguard, also_release: false, abort_is_violation: false,
-            level_text: "", level_note: "", technique: "", design_ref: "DESIGN.md section 4",
+            level_text: "", level_note: "", technique: "", design_ref: "DESIGN.md section 4", stages: nostages,
         }
     }
 }
